@@ -25,16 +25,17 @@ import (
 const xpathPath = "github.com/antchfx/xpath"
 
 type World struct {
-	Repo   string
-	Fset   *token.FileSet
-	Pkg    *packages.Package
-	Types  *types.Package
-	Info   *types.Info
-	Prog   *ssa.Program
-	SSA    *ssa.Package
-	CG     *callgraph.Graph
-	Files  []string
-	NotAna []string // go files present but excluded by build constraints
+	Repo         string
+	Fset         *token.FileSet
+	Pkg          *packages.Package
+	Types        *types.Package
+	Info         *types.Info
+	Prog         *ssa.Program
+	SSA          *ssa.Package
+	CG           *callgraph.Graph
+	TableRefined int // call-graph edges removed by refineTableCalls
+	Files        []string
+	NotAna       []string // go files present but excluded by build constraints
 
 	// all package functions incl. anonymous ones
 	AllFuncs []*ssa.Function
@@ -64,6 +65,8 @@ type World struct {
 	opDispatchCache *opDispatch
 	roGlobalCache   map[*ssa.Global]bool
 	nonNilDepth     int
+	lockEntry       map[*ssa.Function]lockState
+	lockSites       map[*ssa.Function][]lockState
 	originScope     *ssa.Function // originFreeVar: only call sites inside this implementation
 	reachStepCache  map[*ssa.Function]bool
 	initStateCache  *AState
@@ -164,6 +167,7 @@ func loadWorld(repo string, tags string) (*World, error) {
 	if err := w.findIfaces(); err != nil {
 		return nil, err
 	}
+	w.refineTableCalls()
 	w.computePhases()
 	return w, nil
 }
